@@ -1187,8 +1187,8 @@ fn main() {
     let thorough = rep.is_thorough();
     let pair_budget: usize =
         if thorough { 60_000 } else { std::env::var("C02_PAIRS").ok().and_then(|x| x.parse().ok()).unwrap_or(4_000) };
-    let n_core = if thorough { 3_600 } else { 210 };
-    let n_full = if thorough { 1_200 } else { 70 };
+    let n_core = if thorough { 2_800 } else { 210 };
+    let n_full = if thorough { 950 } else { 70 };
 
     // programs: corpus first (all of it), then generated ones
     let cands = corpus::candidate_texts();
